@@ -237,14 +237,20 @@ def rule_b(ctx, ix, f):
     seed = {xatt_p: {'X'}, xc_p: {'X'}, yatt_p: {'Y'}, yc_p: {'Y'}}
     node = f.node
     # (1) range branch: `if roi.ori == 'x': ... else: ...` assigns homogeneous values
-    ifs = [n for n in ast.walk(node) if isinstance(n, ast.If) and isinstance(n.test, ast.Compare)
-           and unparse(n.test.left) == '%s.ori' % roi_p]
+    from .. import cond
+    ifs = []
+    for n in ast.walk(node):
+        if isinstance(n, ast.If) and ('%s.ori' % roi_p) in unparse(n.test):
+            bx = cond.branches(n, "%s.ori == 'x'" % roi_p, f.node)
+            by = cond.branches(n, "%s.ori == 'y'" % roi_p, f.node)
+            if bx is not None:
+                ifs.append((n, bx[0], bx[1]))
+            elif by is not None:
+                ifs.append((n, by[1], by[0]))
     if len(ifs) != 1:
         raise AnalysisError('roi_to_subset_state: the orientation test of the range branch is not recognised')
-    t = ifs[0]
-    want_true = 'X' if (isinstance(t.test.ops[0], ast.Eq) and t.test.comparators[0].value == 'x') or \
-        (isinstance(t.test.ops[0], ast.NotEq) and t.test.comparators[0].value == 'y') else 'Y'
-    for body, want in ((t.body, want_true), (t.orelse, 'Y' if want_true == 'X' else 'X')):
+    t, xbody, ybody = ifs[0]
+    for body, want in ((xbody, 'X'), (ybody, 'Y')):
         names = set()
         for st in body:
             if isinstance(st, ast.Assign):
@@ -301,11 +307,17 @@ def rule_b(ctx, ix, f):
     ctx.ob(R, 'glue.core.subset:roi_to_subset_state rectangle', 'the rectangle is the AND of its x range and its y range', ok,
            detail='the decomposed rectangle is not AndState(<x range selection>, <y range selection>)', where=where(f, rect[0]))
     # (3) mixed categorical / numerical branch
-    mixed = [n for n in ast.walk(node) if isinstance(n, ast.If) and unparse(n.test).replace(' ', '') == '%sisnotNone' % xc_p
-             and any('to_polygon' in unparse(s) for s in n.body)]
+    mixed = []
+    for n in ast.walk(node):
+        if isinstance(n, ast.If) and any('to_polygon' in unparse(s_) for s_ in n.body):
+            b = cond.branches(n, '%s is not None' % xc_p, f.node)
+            if b is not None:
+                mixed.append(b)
     if len(mixed) != 1:
         raise AnalysisError('roi_to_subset_state: mixed categorical/numerical branch not recognised')
-    mx = mixed[0]
+
+    class mx(object):
+        body, orelse = mixed[0]
     pli = [c for c in ast.walk(node) if isinstance(c, ast.Call) and call_name(c) == 'polygon_line_intersections']
     cmr = [c for c in ast.walk(node) if isinstance(c, ast.Call) and call_name(c) == 'CategoricalMultiRangeSubsetState']
     if len(pli) != 1 or len(cmr) != 1:
